@@ -59,10 +59,24 @@ let read_long (s : string) : string =
   else if neg then Int64.to_string !acc
   else if Int64.equal !acc Int64.min_int then Int64.to_string Int64.max_int
   else Int64.to_string (Int64.neg !acc)
-let typed_field (r : result) : string =
+(* canonical decimal text of an extracted Z, and whether it fits a 64-bit long *)
+let string_of_bytes (b : byte list) = String.concat "" (List.map (fun c -> String.make 1 (Char.chr (int_of_byte c))) b)
+let fits_long (s : string) : bool =
+  let neg = String.length s > 0 && s.[0] = '-' in
+  let d = if neg then String.sub s 1 (String.length s - 1) else s in
+  String.length d < 19 || (String.length d = 19 && compare d (if neg then "9223372036854775808" else "9223372036854775807") <= 0)
+(* as<long>: on a plain decimal text the MODEL (as_long = read_dec) says which number it is; otherwise the glue mimics operator>> *)
+let typed_value (v : byte list) : string =
+  match as_long v with
+  | Some z -> let s = string_of_bytes (dec_text z) in if fits_long s then s else read_long (string_of_bytes v)
+  | None -> read_long (string_of_bytes v)
+let typed_field_unused (r : result) : string =
   let vals = List.filter_map (fun (_, v) -> v) r.r_opts in
   if vals = [] then " l=." else
   " l=" ^ String.concat "," (List.map (fun v -> read_long (String.concat "" (List.map (fun b -> String.make 1 (Char.chr (int_of_byte b))) v))) vals)
+let typed_field (r : result) : string =
+  let vals = List.filter_map (fun (_, v) -> v) r.r_opts in
+  if vals = [] then " l=." else " l=" ^ String.concat "," (List.map typed_value vals)
 
 let model = function
   | (("parse" | "parsel" | "hist") as kind) :: dw :: ew :: argvs when argvs <> [] ->
